@@ -957,14 +957,137 @@ def fits_cases(layout: str) -> list:
     return cases
 
 
+def count_cases(layout: str) -> list:
+    """(field, build(bsp, n) -> getter, values, quick?) for count / index / packed fields.  Large lists are n references
+    to ONE object, so building them is cheap."""
+    vit = layout == 'vitamin'
+
+    def mkface(bsp, **kw):
+        args = dict(plane=bsp.planes[0], same_dir_as_plane=False, on_node=False, edges=[], texinfo=None, dispinfo_ind=-1,
+                    surf_fog_volume_id=-1, light_styles=b'\0\0\0\0', lightmap_off=-1, area=1.0, lightmap_mins=(0, 0),
+                    lightmap_size=(0, 0), orig_face=None, primitives=[], dynamic_shadows=True, smoothing_groups=0,
+                    hammer_id=None, vitamin_flags=0)
+        args.update(kw)
+        return B.Face(**args)
+    tex = lambda bsp: bsp.create_texinfo('tools/cnt', reflectivity=Vec(0.5, 0.5, 0.5), width=16, height=16)
+
+    def face_prims(shadows):
+        def build(bsp, n):
+            prim = B.Primitive(False, [], [])
+            bsp.orig_faces = [mkface(bsp, primitives=[prim] * n, dynamic_shadows=shadows)]
+
+            def get(new):
+                f = new.orig_faces[0]
+                return len(f.primitives) if bool(f.dynamic_shadows) == shadows else -1
+            return get
+        return build
+
+    def face_edges(bsp, n):
+        e = B.Edge(Vec(1, 0, 0), Vec(1, 1, 0))
+        kind = 'faces' if vit else 'orig_faces'
+        setattr(bsp, kind, [mkface(bsp, edges=[e] * n, texinfo=tex(bsp) if vit else None)])
+        return lambda new: len(getattr(new, kind)[0].edges)
+
+    def prim_verts(bsp, n):
+        v = Vec(1.5, 2, 3)
+        bsp.primitives = [B.Primitive(True, [], [v] * n)]
+        return lambda new: len(new.primitives[0].verts)
+
+    def prim_inds(bsp, n):
+        bsp.primitives = [B.Primitive(True, [7] * n, [])]
+        return lambda new: len(new.primitives[0].indexed_verts)
+
+    def leaf_area(bsp, n):
+        lf = B.VisLeaf(B.BrushContents.EMPTY, 0, n, B.VisLeafFlags(0x7f if not vit else 1), Vec(), Vec(), [], [], -1)
+        bsp.visleafs = [lf]
+        bsp.nodes[0].child_pos = bsp.nodes[0].child_neg = lf
+        return lambda new: new.visleafs[0].area if new.visleafs[0].flags.value == (0x7f if not vit else 1) else -1
+
+    def overlay_faces(bsp, n):
+        bsp.overlays = [B.Overlay(5, Vec(), Vec(0, 0, 1), tex(bsp), n, list(range(n)), 3)]
+        return lambda new: len(new.overlays[0].faces) if new.overlays[0].render_order == 3 else -1
+
+    def overlay_order(bsp, n):
+        bsp.overlays = [B.Overlay(5, Vec(), Vec(0, 0, 1), tex(bsp), 64, list(range(64)), n)]
+        return lambda new: new.overlays[0].render_order if len(new.overlays[0].faces) == 64 else -1
+
+    def node_faces(bsp, n):
+        f = mkface(bsp, texinfo=tex(bsp))
+        bsp.faces = []
+        bsp.nodes[0].faces = [f] * n
+        return lambda new: len(new.nodes[0].faces)
+
+    def leaf_faces(bsp, n):
+        f = mkface(bsp, texinfo=tex(bsp))
+        lf = B.VisLeaf(B.BrushContents.EMPTY, 0, 0, B.VisLeafFlags.NONE, Vec(), Vec(), [f] * n, [], -1)
+        bsp.faces = [f]
+        bsp.visleafs = [lf]
+        bsp.nodes[0].child_pos = bsp.nodes[0].child_neg = lf
+        return lambda new: len(new.visleafs[0].faces)
+
+    def prop_leafs(bsp, n):
+        leafs = [B.VisLeaf(B.BrushContents.EMPTY, 0, 0, B.VisLeafFlags.NONE, Vec(), Vec(), [], [], -1) for _ in range(n)]
+        bsp.visleafs = leafs or [bsp.visleafs[0]]
+        bsp.nodes[0].child_pos = bsp.nodes[0].child_neg = bsp.visleafs[0]
+        bsp.static_prop_version = B.StaticPropVersion.V10
+        bsp.game_lumps[b'sprp'].version = 10
+        bsp.props = [B.StaticProp('models/a.mdl', Vec(), visleafs=set(leafs))]
+        return lambda new: len(new.props[0].visleafs)
+
+    def face_texinfo(bsp, n):
+        first = tex(bsp)
+        bsp.texinfo = [first] * n + [B.TexInfo(Vec(1, 0, 0), 9.0, Vec(0, 1, 0), 2.0, Vec(), 0.0, Vec(), 0.0, SurfFlags.NONE, first._info)]
+        bsp.orig_faces = [mkface(bsp)]
+        bsp.faces = [mkface(bsp, texinfo=bsp.texinfo[-1], orig_face=bsp.orig_faces[0])]
+        return lambda new: n if new.faces[0].texinfo.s_shift == 9.0 else -1
+
+    def water_texinfo(bsp, n):
+        first = tex(bsp)
+        bsp.texinfo = [first] * n + [B.TexInfo(Vec(1, 0, 0), 9.0, Vec(0, 1, 0), 2.0, Vec(), 0.0, Vec(), 0.0, SurfFlags.NONE, first._info)]
+        bsp.water_leaf_info = [B.LeafWaterInfo(1.5, 0.5, bsp.texinfo[-1])]
+        return lambda new: n if new.water_leaf_info[0].surface_texinfo.s_shift == 9.0 else -1
+
+    def first_prim(bsp, n):
+        p, q = B.Primitive(False, [], []), B.Primitive(True, [4], [])
+        bsp.primitives = [p] * n + [q]
+        bsp.orig_faces = [mkface(bsp, primitives=[q])]
+        return lambda new: n if [x.indexed_verts for x in new.orig_faces[0].primitives] == [[4]] else -1
+    edge_max = 32767 if layout in ('v20', 'infra') else None
+    cases = []
+    if not vit:
+        cases += [('cnt_face_prims', face_prims(True), [0, 1, 32767, 32768, 65535, 65536], True),
+                  ('cnt_face_prims_noshadow', face_prims(False), [0, 1, 32767, 32768, 65535, 65536], True),
+                  ('cnt_overlay_faces', overlay_faces, [0, 1, 63, 64, 65, 16383, 16384], True),
+                  ('overlay_render_order', overlay_order, [0, 3, 4], True)]
+    cases += [('pack_leaf_area', leaf_area, {'chaos': [0, 255, 256, 16383, 16384], 'vitamin': [0, 255, 256, 32767, 32768]}.get(
+        layout, [0, 1, 255, 256, 511, 512]), True)]
+    if edge_max:
+        cases += [('cnt_face_edges', face_edges, [0, 32767, 32768], True)]
+    if layout in ('v20', 'infra', 'vitamin') and not vit:
+        cases += [('cnt_prim_verts', prim_verts, [0, 65535, 65536], True)]
+    if layout == 'v20':
+        cases += [('cnt_prim_inds', prim_inds, [0, 65535, 65536], True),
+                  ('cnt_leaf_faces', leaf_faces, [0, 65535, 65536], True),
+                  ('cnt_node_faces', node_faces, [65535, 65536], False),
+                  ('cnt_prop_leafs', prop_leafs, [65535, 65536], False),
+                  ('idx_face_texinfo', face_texinfo, [32767, 32768], False),
+                  ('idx_water_texinfo', water_texinfo, [65535, 65536], False),
+                  ('idx_face_first_prim', first_prim, [65535, 65536], False)]
+    return cases
+
+
 BOUNDS = [-(2 ** 31) - 1, -(2 ** 31), -65536, -32769, -32768, -129, -128, -1, 0, 1, 127, 128, 254, 255, 256, 32767, 32768, 65535,
           65536, 2 ** 31 - 1, 2 ** 31, 2 ** 32 - 1, 2 ** 32]
 
 
 def fits_records(out: hlib.RecWriter, rng: random.Random) -> None:
     for layout in ('v20', 'chaos', 'vitamin', 'infra'):
-        for field, build in fits_cases(layout):
-            if field.startswith('len_'):
+        plan = [(field, build, None) for field, build in fits_cases(layout)]
+        plan += [(field, build, vals) for field, build, vals, quick in count_cases(layout) if quick or THOROUGH]
+        for field, build, vals in plan:
+            if vals is not None:
+                values = vals
+            elif field.startswith('len_'):
                 values = [0, 1, 4, 5, 127, 128, 129, 300] if field != 'len_face_styles' else [4, 5, 8]
             else:
                 values = BOUNDS
